@@ -5589,3 +5589,7 @@ mod tests {
         }
     }
 }
+
+#[cfg(kani)]
+#[path = "/verif/kani/parquet/column/writer/mod.rs"]
+mod verif_kani;
